@@ -31,8 +31,13 @@ SrcFam(as) == { LeafA("a"),
                 \* a zero share listed first still receives the first left-over unit: its balance is needed
                 [k |-> "allot", it |-> <<[p |-> [k |-> "portion", n |-> 0, d |-> 1], s |-> LeafA("a")], [p |-> [k |-> "portion", n |-> 1, d |-> 2], s |-> LeafA("b")],
                                          [p |-> [k |-> "remaining"], s |-> LeafA("b")]>>],
+                \* an unbounded overdraft (its debit still moves the balance a later bounded source reads)
+                [k |-> "ovdu", e |-> Acc("a")],
+                \* an allotment whose first clause is unbounded: the clauses after it are still asked for their share
+                [k |-> "allot", it |-> <<[p |-> [k |-> "portion", n |-> 1, d |-> 2], s |-> LeafA(WORLD)], [p |-> [k |-> "remaining"], s |-> LeafA("a")]>>],
                 \* a bounded overdraft that covers any amount of the family: the balance still decides (it may be negative)
-                [k |-> "seq", s |-> <<LeafA("b"), [k |-> "ovd", e |-> Acc("a"), b |-> Mon(as, 60)]>>] }
+                [k |-> "seq", s |-> <<LeafA("b"), [k |-> "ovd", e |-> Acc("a"), b |-> Mon(as, 60)]>>],
+                [k |-> "ovd", e |-> Acc("a"), b |-> Mon(as, 15)] }
               \cup (IF Big THEN { [k |-> "seq", s |-> <<[k |-> "ovd", e |-> Acc("a"), b |-> Mon(as, 50)], LeafA("b")>>],
                                   [k |-> "seq", s |-> <<LeafA("b"), LeafA("a")>>] } ELSE {})
 Amounts == IF Big THEN {5, 45, 60} ELSE {5, 60}
@@ -48,7 +53,8 @@ DeclFam == { <<>>,
 Contents == { [a |-> [USD |-> 100], b |-> [USD |-> 100]],
               [a |-> [USD |-> 100, EUR |-> 7], b |-> [USD |-> 20]],
               [a |-> [USD |-> 50], b |-> [USD |-> 100, EUR |-> 3]],
-              [a |-> [USD |-> -30], b |-> [USD |-> 5]] }
+              [a |-> [USD |-> -30], b |-> [USD |-> 5]],
+              [a |-> [EUR |-> 7], b |-> [USD |-> 100]] }        \* no entry at all for (a, USD)
 Seqs == IF Big THEN {<<s>> : s \in Stmts} \cup {<<s, t>> : s \in Stmts, t \in Stmts} \cup {<<s, t, u>> : s \in Stmts, t \in Stmts, u \in Sends}
         ELSE {<<s, t>> : s \in Stmts, t \in Sends} \cup {<<s, v, t>> : s \in Sends, v \in Saves, t \in Sends}
 
@@ -61,6 +67,5 @@ Pick == /\ phase = "pick"
 Spec == Init /\ [][Pick]_vars
 
 EmitInv == phase = "done" =>
-   PrintT("GEN " \o ToJson([vars |-> prog.vars, stmts |-> prog.stmts, bal |-> prog.bal, modes |-> <<>>, fault |-> 0,
-                            status |-> Run([prog EXCEPT !.bal = prog.bal] @@ [flagovd |-> TRUE]).err]))
+   PrintT("GEN " \o ToJson([vars |-> prog.vars, stmts |-> prog.stmts, bal |-> prog.bal, modes |-> <<>>, fault |-> 0, status |-> ""]))
 =============================================================================
